@@ -38,10 +38,12 @@ ASSUMPTIONS = [
     "rates are observed with int concentrations and int/Fraction rate constants (exact arithmetic in the library)",
 ]
 
-QUICK = [("build_q", ["GenSubstance", "GenReaction", "Build", "GenFinish"], 500, 24),
-         ("inact_q", ["GenReaction", "Build"], 250, 8)]
-THOROUGH = [("build_t", [], None, 400), ("inact_t", [], None, 100), ("build3_t", [], None, 150)]
-HIST_QUICK = [("hist_nh_q", ["GenQuery", "GenReorder"], 48), ("hist_per_q", ["GenQuery", "GenReorder"], 32)]
+QUICK = [("build_q", ["GenSubstance", "GenReaction", "Build", "GenFinish"], 300, 16),
+         ("inact_q", ["GenReaction", "GenReverse", "Build"], 250, 16),
+         ("third_q", ["GenReaction", "Build"], 250, 9)]
+THOROUGH = [("build_t", [], None, 400), ("inact_t", [], None, 250), ("build3_t", [], None, 150),
+            ("third_t", [], 30000, 300)]
+HIST_QUICK = [("hist_nh_q", ["GenQuery", "GenReorder"], 48)]
 HIST_THOROUGH = [("hist_nh_t", [], 400), ("hist_per_t", [], 400), ("hist_w_t", [], 400), ("hist_nox_t", [], 500)]
 DYN_QUICK = [("dyn_q", ["GenSetState", "GenEulerStep", "GenSafeStep"])]
 DYN_THOROUGH = [("dyn_t", [])]
@@ -93,9 +95,25 @@ def deep_events(rsys, sysin, exp, rng):
     N = cc.observe_net(rsys)
     if N is not None:
         evs.append({"ev": "NetStoich", "N": N})
-    with warnings.catch_warnings():
-        warnings.simplefilter("ignore")
-        odesys, extra = get_odesys(rsys)
+    # rates on an integer grid (before anything that may refuse the system)
+    for _ in range(4):
+        cvec = [rng.randint(0, 3) for _ in names]
+        try:
+            f = cc.observe_rates(rsys, names, cvec)
+        except Exception as e:
+            skips.append("rates raised %s" % type(e).__name__)
+            continue
+        if f is None:
+            skips.append("unencodable rate")
+            continue
+        evs.append({"ev": "RatesAt", "c": cvec, "f": f})
+    try:
+        with warnings.catch_warnings():
+            warnings.simplefilter("ignore")
+            odesys, extra = get_odesys(rsys)
+    except Exception as e:  # the ODE builder refused: not judged here, the observations so far are
+        skips.append("deep observation raised %s" % type(e).__name__)
+        return evs, skips
     if list(odesys.names) != names:
         raise core.MachineryFailure("odesys.names %r differ from the substances given %r" % (odesys.names, names))
     li = odesys.linear_invariants
@@ -114,37 +132,22 @@ def deep_events(rsys, sysin, exp, rng):
         pairs = [[a, b] for i, a in enumerate(names) for b in names[i + 1:]]
         rng.shuffle(pairs)
         prefs += pairs if len(names) <= 5 else pairs[:6]
-        for pref in prefs:
-            kind, val = cc.observe_lindep(odesys, extra, pref)
-            if kind == "refused":
-                skips.append("elimination refused")
-                continue
-            if kind == "unencodable":
-                skips.append("elimination unencodable")
-                continue
-            for f in val:
-                e = {"ev": "LinDep", "pref": pref or []}
-                e.update(f)
-                evs.append(e)
-            evs.append({"ev": "LinDepDone", "complete": pref is None})
+        evs += lindep_events(odesys, extra, names, prefs, skips)
     else:
         skips.append("no linear_dependencies offered")
-    # rates on an integer grid
-    for _ in range(4):
-        cvec = [rng.randint(0, 3) for _ in names]
-        f = cc.observe_rates(rsys, names, cvec)
-        if f is None:
-            skips.append("unencodable rate")
-            continue
-        evs.append({"ev": "RatesAt", "c": cvec, "f": f})
     # one short integration; invariant matrix and totals are the spec's
     c0 = [rng.randint(0, 3) for _ in names]
     if not any(c0):
         c0[0] = 1
     tol = sysin["tol"]
-    res = cc.integrate(odesys, names, c0, [0] + [cc.qfloat(t) for t in sysin["tout"]],
-                       cc.qfloat(tol["atol"]), cc.qfloat(tol["rtol"]))
-    if not res.info.get("success", False):
+    try:
+        res = cc.integrate(odesys, names, c0, [0] + [cc.qfloat(t) for t in sysin["tout"]],
+                           cc.qfloat(tol["atol"]), cc.qfloat(tol["rtol"]))
+        ok = bool(res.info.get("success", False))
+    except Exception as e:
+        skips.append("integration raised %s" % type(e).__name__)
+        return evs, skips
+    if not ok:
         skips.append("integration failed")
     else:
         evs.append({"ev": "SetState", "c": c0})
@@ -484,7 +487,7 @@ def run(ctx):
     ctx.exhaustive = not ctx.quick
 
     # code -> spec: seeded formula-defined systems beyond the pool
-    n = 300 if ctx.quick else 6000
+    n = 200 if ctx.quick else 6000
     items = []
     for i in range(n):
         names, rx = seeded_system(ctx.rng)
